@@ -366,6 +366,10 @@ class Engine:
             st.pc.append(v.z >= (0 if opt else 1))
         elif is_ref(v.ty):
             st.pc.append(z3.And(v.z >= (0 if opt else 1), v.z < st.nref))
+            # typed heap: a list is never an object, a dict never a tuple, ... (kinds of different container types do not alias)
+            k = z3.Function("kind", I, I)(v.z)
+            kn = atom("kind:" + self.kind_name(v.ty))
+            st.pc.append(z3.Or(v.z == 0, k == kn) if opt else k == kn)
 
     def assume_provenance(self, r, name, sort, owner):
         """a reference read from an object that is unchanged since an earlier point is older than that point"""
@@ -533,7 +537,25 @@ class Engine:
             raise NeedFork()
         ref = st.nref
         st.nref = st.nref + 1
+        self.last_alloc = ref
         return ref
+
+    def kind_name(self, ty):
+        """heap kind of a reference type: container constructor, or the root repository class of an object type
+        (objects of unrelated classes never alias)"""
+        if ty[0] == "set":
+            return "dict"
+        if ty[0] != "obj":
+            return ty[0]
+        root = ty[1]
+        for c in self.bi.mro(self, ty[1]):
+            if c in ("object", "Exception", "BaseException") or self.bi.find_class(self, c)[0] is None:
+                break
+            root = c
+        return "obj:" + root.split(".")[-1]
+
+    def set_kind(self, ref, kind):
+        self.st.pc.append(z3.Function("kind", I, I)(ref) == atom("kind:" + kind))
 
     def wframe(self, ref, what):
         st = self.st
@@ -571,6 +593,7 @@ class Engine:
     # ---- lists
     def alloc_list(self, elem_ty):
         ref = self.alloc()
+        self.set_kind(ref, "list")
         self.st.heap.store("len", I, ref, z3.IntVal(0))
         return V(("list", elem_ty), ref)
 
@@ -707,6 +730,7 @@ class Engine:
         """pairs: list of (key, V)"""
         ty = ("rec", tuple((k, self.fields.get("rec." + k) or (("opt", v.ty) if v.none is not None else v.ty)) for k, v in pairs))
         ref = self.alloc()
+        self.set_kind(ref, "rec")
         r = V(ty, ref)
         for k, v in pairs:
             self.fld_write(r, k, v)
@@ -719,6 +743,7 @@ class Engine:
             return V(("tuple",) + tuple(i.ty if i.none is None else ("opt", i.ty) for i in items), None, items=items)
         ty = ("tuple",) + tuple((("opt", i.ty) if i.none is not None else i.ty) for i in items)
         ref = self.alloc()
+        self.set_kind(ref, "tuple")
         r = V(ty, ref, items=items)
         for k, v in enumerate(items):
             if v.ty == "fn" or v.z is None and v.ty != "none":
